@@ -5,6 +5,7 @@
 Require Import List NArith Bool Permutation.
 Require Import KV.Rsp11.Model KV.Rsp11.Spec KV.Rsp11.Run.
 Require Import KV.Rsp11.BindProofs KV.Rsp11.JoinProofs KV.Rsp11.RunProofs KV.Rsp11.OwnProofs KV.Rsp11.JoinPermProofs.
+Require Import KV.Rsp11.Routing KV.Rsp11.RoutingProofs KV.Rsp11.PolicyProofs.
 Import ListNotations.
 Local Open Scope N_scope.
 
@@ -86,6 +87,88 @@ Proof.
   - intros H. apply goodb_spec in H. vm_compute in H. discriminate.
 Qed.
 Print Assumptions C11_leak_refuted.
+
+(* Stream routing (RSPEngine::add_to_stream, normalize_stream_iri on code points) is exact.
+   (1) a window declared ON decl receives an item handed over with spelling sp iff decl is a variable stream or the
+       normalised strings are equal;
+   (2) with well-formed declarations (no variable stream, pairwise different normalised stream IRIs, pairwise
+       different window names) an item handed over with any spelling of window w''s stream reaches window w iff
+       w = w': no window ever receives - hence no window block ever matches - an item of another window's stream;
+   (3) for ANY window operator (state, step, flush: no property of it is needed) the contents that window w "itself
+       reported" in the history the engine produces from a stream of add_to_stream calls (and stop()) are exactly
+       the reports of that operator run on its own over the events of w's stream - the contents C11_own_window
+       speaks about are those of the C09 window over exactly that sub-stream;
+   (4) the bare key, <key>, :key and white-space padded spellings of a clean key are spellings of the same stream. *)
+Theorem C11_routing_exact :
+  (forall decl sp, routes decl sp = true <-> starts_with QMARK decl = true \/ normalize decl = normalize sp) /\
+  (forall (wstate : Type) (tbl : list (win wstate)) (w w' : win wstate) (sp : str),
+     wf_table wstate tbl -> In w tbl -> In w' tbl -> normalize sp = normalize (w_decl wstate w') ->
+     (routes (w_decl wstate w) sp = true <-> w = w')) /\
+  (forall (wstate : Type) (wstep : wstate -> triple * N -> wstate * option (list triple))
+          (wflush : wstate -> option (list triple)) (tbl : list (win wstate))
+          (evs : list (str * (triple * N))) (stop : bool) (w : win wstate),
+     wf_table wstate tbl -> In w tbl ->
+     reported (reports_of (engine_acts wstate wstep wflush tbl evs stop)) (w_name wstate w) =
+     alone_reports wstate wstep wflush (w_state wstate w) (canonical_events (w_decl wstate w) evs) stop) /\
+  (forall a m z, clean_ends a z ->
+     normalize (a :: m ++ [z]) = a :: m ++ [z] /\
+     normalize (LT :: (a :: m ++ [z]) ++ [GT]) = a :: m ++ [z] /\
+     normalize (COLON :: a :: m ++ [z]) = a :: m ++ [z]) /\
+  (forall w1 w2 b t y, is_ws b = false -> is_ws y = false -> forallb is_ws w1 = true -> forallb is_ws w2 = true ->
+     normalize (w1 ++ (b :: t ++ [y]) ++ w2) = normalize (b :: t ++ [y])).
+Proof.
+  exact (conj routes_spec (conj routing_exact (conj own_window_contents
+        (conj (fun a m z H => conj (normalize_bare a m z H) (conj (normalize_brackets a m z H) (normalize_colon a m z H)))
+              normalize_ws_padding)))).
+Qed.
+Print Assumptions C11_routing_exact.
+
+(* Which buffered per-window results enter an emission, as the code's bookkeeping defines it.
+   SingleThread (process_single_thread_window_results, EXTEND):
+   (1) absorbing results appends, per window, the rows of its results; (2) a Drain emits iff something was pending and
+   every window then has a buffer, and it joins exactly these buffers; (3) after every history, buffer ++ pending of
+   window i are the rows of ALL results window i produced since the buffers were last cleared (Wait / Timeout: since
+   the previous emission; Steal: since the start), in firing order - the latest result is among them, but under
+   Wait it is NOT the only one when a window fired several times in a cycle.
+   MultiThread (coordinator, REPLACE): (4) absorbing leaves per window its latest result; (5) what an event emits;
+   (6) under every policy the buffer of window i is the latest result of i the coordinator has consumed;
+   (7) Wait / Timeout: a batch emits only if every window delivered a result in the current cycle (fresh latest
+   results); (8) Steal: a batch emits as soon as every window has some buffered result (latest, possibly stale);
+   (9) a deadline emits only under Timeout{Steal}, with the buffers as they are. *)
+Theorem C11_policy_bookkeeping :
+  (forall rs bufs i, aget [] i (absorb_extend bufs rs) = aget [] i bufs ++ wbuf i rs) /\
+  (forall c st, snd (drain c st) =
+     if drain_emits c st then fst (emit c (absorb_extend (buffers st) (chan st)) (r2s_last st)) else []) /\
+  (forall c acts i, let st := fst (run c init acts) in
+     aget [] i (buffers st) ++ wbuf i (chan st) = wbuf i (results_since_clear c acts)) /\
+  (forall rs bufs i, aget [] i (absorb_replace bufs rs) =
+     match latest i rs with Some rows => rows | None => aget [] i bufs end) /\
+  (forall c cs e, snd (cstep c cs e) =
+     if cemits c cs e then fst (emit c (bufs_after cs e) (c_last cs)) else []) /\
+  (forall c es i, aget [] i (c_bufs (fst (crun c cinit es))) =
+     match latest i (consumed es) with Some rows => rows | None => [] end) /\
+  (forall c (Q : N -> binding -> Prop) cs rs, InvC c Q cs -> Forall (rows_ok c Q) rs -> pol c <> Steal ->
+     cemits c cs (Batch rs) = true -> forall i, i < nwin c -> In i (c_trig cs) \/ In i (map fst rs)) /\
+  (forall c cs rs, pol c = Steal -> rs <> [] -> N.of_nat (length (absorb_replace (c_bufs cs) rs)) = nwin c ->
+     cemits c cs (Batch rs) = true) /\
+  (forall c cs, cemits c cs Deadline = true ->
+     pol c = TimeoutSteal /\ c_trig cs <> [] /\ bufs_after cs Deadline = c_bufs cs).
+Proof.
+  exact (conj absorb_extend_get (conj drain_emission (conj buffers_since_clear (conj absorb_replace_get
+        (conj cstep_emission (conj coordinator_buffers_latest (conj wait_emits_when_all_fired
+        (conj steal_emits_when_all_buffered deadline_emission)))))))).
+Qed.
+Print Assumptions C11_policy_bookkeeping.
+
+(* non-vacuity of the routing theorem: the spellings the check hands to the engine, and a stream that differs only in
+   the namespace *)
+Example C11_routing_example :
+  let obsA := [104; 116; 116; 112; 58; 47; 47; 65; 47; 111; 98; 115] in    (* http://A/obs *)
+  let obsB := [104; 116; 116; 112; 58; 47; 47; 66; 47; 111; 98; 115] in    (* http://B/obs *)
+  routes (LT :: obsA ++ [GT]) obsA = true /\ routes (LT :: obsA ++ [GT]) (32 :: LT :: obsA ++ [GT; 10]) = true /\
+  routes (LT :: obsA ++ [GT]) obsB = false /\ routes [COLON; 115; 48] [115; 48] = true /\
+  routes [QMARK; 115] obsB = true.
+Proof. vm_compute. repeat split. Qed.
 
 (* non-vacuity: a history outside the class (disjoint predicates) with a real join on ?1 and a static part *)
 Example C11_example :
